@@ -833,6 +833,25 @@ pub fn long_list_call(d: &Data, r: &mut Rng) -> Call {
     Call { kind: "run".into(), rules: vec![Group::anon(chosen.iter().map(|(ru, _)| ru.to_string()).collect())], words, into: vec![], from: vec![] }
 }
 
+/// environment sets `:{ .. }:` whose members look to different sides and bind a shared alpha:
+/// which member is tried first decides the binding, and words are chosen so that it matters
+pub fn env_set_call(r: &mut Rng) -> Call {
+    let rule: &str = *r.pick(
+        &[
+            "a > [Anasal] / :{ _C:[Anasal], C:[Anasal]_ }:",
+            "a > e | :{ _C:[Anasal]p, C:[Anasal]_ }:",
+            "V > [Anasal] / :{ C:[Anasal]_, _C:[Anasal] }:",
+            "C > [Avoice] / :{ _C:[Avoice], C:[Avoice]_ }:",
+            "a > [Along] / :{ _$C:[Avoice], C:[Avoice]_ }:",
+            "a > o / :{ _C:[Anasal], C:[-Anasal]_ }:",
+        ][..],
+    );
+    let pool = ["tan", "nat", "tat", "nan", "tank", "tamp", "man", "pam", "an.ta", "na.ta", "sad.ta", "ab.sa", "das", "zat"];
+    let n = r.range(2, 5);
+    let words: Vec<String> = (0..n).map(|_| (*r.pick(&pool[..])).to_string()).collect();
+    Call { kind: "run".into(), rules: vec![Group::anon(vec![rule.to_string()])], words, into: vec![], from: vec![] }
+}
+
 /// corpus cross product sample: a test rule applied to a handful of test words
 pub fn corpus_call(d: &Data, r: &mut Rng) -> Call {
     let rule = r.pick(&d.test_rules).clone();
